@@ -129,8 +129,14 @@ func RunBFS(m *Machine, deadline time.Time, st *Stats) {
 				break
 			}
 			n := m.NumOps(it.s)
+			var trOfState Trace
+			if prog.mem != nil {
+				trOfState = pathOf(it.k)
+			}
 			for i := 0; i < n; i++ {
+				progressStartBFS(trOfState, i)
 				r := m.Step(it.s, i)
+				progressEnd()
 				if r.Skip != "" {
 					st.Skipped[r.Skip]++
 					continue
@@ -195,7 +201,9 @@ func RunBFS(m *Machine, deadline time.Time, st *Stats) {
 			if m.Verified != nil && !m.Verified(it.s, i) {
 				continue
 			}
+			progressStartBFS(pathOf(it.k), i)
 			r := m.Step(it.s, i)
+			progressEnd()
 			if r.Skip != "" {
 				continue
 			}
